@@ -66,6 +66,7 @@ let parse_cmd (s : string) : cmd =
   | ["new"; w] -> CNew (z_of_string w)
   | ["fill"; n] -> CFill (z_of_string n)
   | ["poll"] -> CPoll
+  | ["pollif"] -> CPollIf
   | ["spawn"] -> CSpawn
   | ["join"] -> CJoin
   | ["cnew"; c] -> CCNew (z_of_string c)
@@ -87,6 +88,7 @@ let cmd_text (c : cmd) : string =
   | CNew w -> "new " ^ zs w
   | CFill n -> "fill " ^ zs n
   | CPoll -> "poll"
+  | CPollIf -> "pollif"
   | CSpawn -> "spawn"
   | CJoin -> "join"
   | CCNew c -> "cnew " ^ zs c
